@@ -135,8 +135,43 @@ def bed_validity(b, chrom_len):
     return errs
 
 
+def noise_world(delta, d):
+    """C14's annotation with every read derived by <=d edits of the noise menu (plus the pairs of terminal-exon edits when d < 2);
+       returns (world, {read name: (read dict, edits, expected input blocks)})"""
+    w = annotation()
+    menu = noise_menu(delta)
+    reads = {}
+    k = 0
+    combos = []
+    for n in range(0, d + 1):
+        combos += list(itertools.combinations(menu, n))
+    if d < 2:
+        term = [m for m in menu if m[0] in ("fake-left", "fake-right", "misplaced-first", "misplaced-last", "misplaced-first-inside", "trunc-left")]
+        combos += list(itertools.combinations(term, 2))
+    for devs in combos:
+        r = derive(devs)
+        if r is None:
+            continue
+        blocks, edits = r
+        nm = "r%d" % k
+        k += 1
+        rd = {"name": nm, "chr": "chr1", "blocks": [list(b) for b in blocks], "clip_right": "A" * 30}
+        if edits:
+            rd["edits"] = edits
+        if any(x[0] == "aligned-polya" for x in devs):
+            if any(x[0] in ("fake-right", "misplaced-last") for x in devs):
+                continue
+            rd["blocks"].append([blocks[-1][1] + 301, blocks[-1][1] + 325])
+            rd["block_seq"] = {len(rd["blocks"]) - 1: "A" * 25}
+            rd["clip_right"] = "A" * 12
+        reads[nm] = (rd, devs, blocks)
+    w["reads"] = [v[0] for v in reads.values()]
+    return w, reads
+
+
 def pipeline_case(args):
-    strategy, preset, d, scratch = args
+    strategy, preset, d, scratch = args[:4]
+    mirror = args[4] if len(args) > 4 else 0      # 1: the whole world reverse-complemented ('-' strand gene, polyT heads)
     from vlib import syn, run
     delta = PRESETS[preset]
     flags = STRATEGIES[strategy]
@@ -171,9 +206,14 @@ def pipeline_case(args):
                 rd["clip_right"] = "A" * 12
             reads[nm] = (rd, devs, blocks)
     w["reads"] = [v[0] for v in reads.values()]
-    dd = os.path.join(scratch, "c14_%s_%s_%d" % (strategy, preset, d))
+    dd = os.path.join(scratch, "c14_%s_%s_%d_%d" % (strategy, preset, d, mirror))
     shutil.rmtree(dd, ignore_errors=True)
-    paths = syn.materialise(w, dd)
+    if mirror:
+        from props import c11
+        w2, s2 = c11.reflect_world(w, syn.genome_sequences(w))
+        paths = c11.write_world(w2, s2, dd)
+    else:
+        paths = syn.materialise(w, dd)
     out = os.path.join(dd, "out")
     rc = run.run_isoquant(run.base_argv(paths, out, extra=["--no_model_construction", "--matching_strategy", preset,
                                                           "--splice_correction_strategy", strategy]), paths["home"], os.path.join(dd, "o.txt"))
@@ -181,8 +221,13 @@ def pipeline_case(args):
     if rc != 0:
         errs.append(("run-failed", "exit %d: %s" % (rc, open(os.path.join(dd, "o.txt")).read()[-300:])))
         shutil.rmtree(dd, ignore_errors=True)
-        return (strategy, preset), errs, 0, 0
+        return (strategy, preset, mirror), errs, 0, 0
     bed = run.parse_bed(run.find(out, "OUT", ".corrected_reads.bed"))
+    if mirror:
+        # back to the coordinates of the unmirrored world (validity of the raw record is checked on the record as printed)
+        n1 = w["chroms"]["chr1"] + 1
+        for b in bed:
+            b["blocks"] = [(n1 - e, n1 - s_) for s_, e in reversed(b["blocks"])]
     rows = run.parse_assignments(run.find(out, "OUT", ".read_assignments.tsv"))
     assigned = {}
     for r in rows:
@@ -230,7 +275,7 @@ def pipeline_case(args):
     if missing:
         errs.append(("read-missing", "%d reads missing from the BED, e.g. %s %s" % (len(missing), sorted(missing)[0], list(reads[sorted(missing)[0]][1]))))
     shutil.rmtree(dd, ignore_errors=True)
-    return (strategy, preset), errs, len(bed), changed
+    return (strategy, preset, mirror), errs, len(bed), changed
 
 
 # ------------------------------------------------------------------------------------------------ B: Illumina corrector
@@ -290,13 +335,15 @@ def illumina_chunk(args):
 def run(ctx):
     quick = ctx.tier == "quick"
     d = 1 if quick else 2
-    jobs = [(s, p, d, ctx.scratch) for s in STRATEGIES for p in PRESETS]
+    jobs = [(s, p, d, ctx.scratch, m) for s in STRATEGIES for p in PRESETS for m in (0, 1)]
     nbed = nchanged = 0
     for key, errs, nb, ch in core.pmap(pipeline_case, jobs):
         nbed += nb
         nchanged += ch
         for k, msg in errs:
-            ctx.violation("%s:%s" % (k, key[0]), "strategy %s preset %s: %s" % (key[0], key[1], msg), {"strategy": key[0], "preset": key[1], "d": d})
+            ctx.violation("%s:%s%s" % (k, key[0], ":mirrored" if key[2] else ""), "strategy %s preset %s%s: %s" %
+                          (key[0], key[1], " (reverse-complemented world, coordinates mapped back)" if key[2] else "", msg),
+                          {"strategy": key[0], "preset": key[1], "d": d, "mirror": key[2]})
     ctx.note("A: %d pipeline runs, %d BED records checked, %d of them changed by correction" % (len(jobs), nbed, nchanged))
     reads, menu = illumina_menu()
     maxk = 3 if quick else 5
@@ -327,5 +374,5 @@ def run(ctx):
 def replay(ctx, c):
     if "exons" in c:
         return "IlluminaExonCorrector.from_data(%r).correct_exons(%r)" % (c["short_introns"], c["exons"])
-    key, errs, nb, ch = pipeline_case((c["strategy"], c["preset"], c.get("d", 1), ctx.scratch))
+    key, errs, nb, ch = pipeline_case((c["strategy"], c["preset"], c.get("d", 1), ctx.scratch, c.get("mirror", 0)))
     return errs[0][1] if errs else None
